@@ -202,14 +202,14 @@ theorem revents_stale_repaired : cbLog (runOps .repaired probeReventsStale) = [.
 def probeIoSelfCancel : List Op := [.beh ⟨0, 0, [.cancel 0]⟩, .act (.io 0 100 1 0), .ready 100 1, .tick]
 def probeSigSelfCancel : List Op := [.beh ⟨0, 0, [.cancel 0]⟩, .act (.signal 0 23 0), .act (.raise 23), .tick]
 
-/-- A persistent watch that cancels itself from its own callback: the loop reads it afterwards
-    (both variants of the source: no repair is proposed). -/
-theorem io_self_cancel_counterexample (cfg : Config) (h : cfg = .shipped ∨ cfg = .repaired) :
-    (runOps cfg probeIoSelfCancel).status = .ub .invokeWatchType := by
-  cases h with
-  | inl h => subst h; decide +kernel
-  | inr h => subst h; decide +kernel
+/-- An io watch that cancels itself from its own callback: `invoke_watch` reads it afterwards. -/
+theorem io_self_cancel_counterexample : (runOps .shipped probeIoSelfCancel).status = .ub .invokeWatchType := by
+  decide +kernel
+theorem io_self_cancel_repaired : (runOps .repaired probeIoSelfCancel).status = .ok ∧
+    cbLog (runOps .repaired probeIoSelfCancel) = [.cb 0 1 (.io 100 1)] := by decide +kernel
 
+/-- A signal watch that cancels itself: `tickit_evloop_invoke_sigwatches` reads `this->next` afterwards
+    (both variants of the source: no repair is proposed). -/
 theorem signal_self_cancel_counterexample (cfg : Config) (h : cfg = .shipped ∨ cfg = .repaired) :
     (runOps cfg probeSigSelfCancel).status = .ub .sigLoopThis := by
   cases h with
